@@ -115,6 +115,11 @@ def check_case(case):
             tt = z.start_time + float(t) / z.sample_rate
             tt_exact = (T(tt) - T0) * 86400 * srx
             forms.append(("time", tt, tt_exact, 4 * ULP_T * 86400 * srx + abs(tt_exact) / 10 ** 15))
+            if t.denominator <= 4 and t.numerator % 3 == 0:
+                # the same instant written on the TAI / TT scale
+                forms.append(("time", getattr(tt, ("tai", "tt")[(t.numerator // 3) % 2]), tt_exact,
+                              12 * ULP_T * 86400 * srx + abs(tt_exact) / 10 ** 15))
+                res.hits["Time given on another scale"] += 1
         else:
             forms.append(("time-nostart", Time("2021-01-01T00:00:00", precision=9) + float(t) * u.s, None, None))
         for n in range(-1, N + 2):
@@ -166,6 +171,32 @@ def check_case(case):
             res.hits["sample_rate assigned before a fractional request"] += 1
         except Exception as e:
             res.violation("snippet|assignment history|raised", f"{type(e).__name__}: {e}", case, None)
+    # one buffer, contents changed between two fractional requests (explicit in-place writes are the caller's right): the second
+    # answer must be that of a freshly built signal holding the new contents
+    if N >= 5:
+        buf = np.array(zdata)
+        zs = type(z).like(z, buf)
+        try:
+            first = pb.snippet(zs, 1.25, 3)
+            for step in range(2):
+                if step == 0:
+                    np.asarray(zs.data)[...] = np.asarray(zs.data)[::-1].copy() * 2
+                else:
+                    zs = type(z).like(z, buf)                      # a NEW signal object around the same (re-filled) buffer
+                    buf[...] = np.roll(buf, 1, axis=0) + 1
+                again = pb.snippet(zs, 1.25, 3)
+                fresh = pb.snippet(type(z).like(z, np.array(np.asarray(zs.data))), 1.25, 3)
+                res.transitions += 3
+                if not np.array_equal(np.asarray(again.data), np.asarray(fresh.data)):
+                    res.violation("snippet|history|buffer contents changed between requests", f"after the signal's buffer was overwritten in "
+                                  f"place ({('same object', 'new object, same buffer')[step]}) snippet(z, 1.25, 3) still answers from the "
+                                  f"old contents (max diff {float(np.max(np.abs(np.asarray(again.data) - np.asarray(fresh.data)))):.3g})",
+                                  case, {"step": step})
+                    break
+            else:
+                res.hits["buffer overwritten between requests"] += 1
+        except Exception as e:
+            res.violation("snippet|history|raised", f"{type(e).__name__}: {e}", case, None)
     res.sample({"N": N, "dtype": str(dtype), "ss": list(ss), "rate": case["rate"], "start": case["start"],
                 "example": "snippet(z, 2.25 samples as %s, 3)" % case["unit"]}, 1)
     return res
@@ -378,7 +409,8 @@ def main(argv=None):
         PID, gen_cases=gen_cases, check_case=check_case, describe=describe,
         required_hits=["Time on start-less signal rejected", "out of range rejected", "n = 0",
                        "whole-sample count (bit-exact slice)", "fractional (DFT interpolation)", "long signal, large offset", "request a few nano-samples off a whole sample", "sample_rate assigned before a fractional request", "argument forms",
-                       "narrow integer whose t + n does not fit its width", "narrow integer, out of range refused"],
+                       "narrow integer whose t + n does not fit its width", "narrow integer, out of range refused",
+                       "Time given on another scale", "buffer overwritten between requests"],
         assumptions=["the instant a request denotes is computed exactly from the form given (count / Quantity / Time); "
                      "resolution allowance 0 / 1e-15 rel / 4 ulp_T*sr samples",
                      "the start_time of an n = 0 result is constrained like any other (start + t/sample_rate)",
